@@ -1551,10 +1551,12 @@ class Collection(object):
             doc_id = doc['_id']
             if isinstance(doc_id, dict):
                 doc_id = helpers.hashdict(doc_id)
-            del self._store[doc_id]
-            deleted_count += 1
-            if not multi:
-                break
+            # only count what this call removes: another thread (or a TTL pass) may have
+            # removed the document since it was read
+            if self._store.discard(doc_id):
+                deleted_count += 1
+                if not multi:
+                    break
 
         return {
             'connectionId': self.database.client._id,
